@@ -32,11 +32,42 @@ fn nets(specs: &[GenSpec]) -> Vec<Net> {
 fn ksp_algos(yens: bool, tier: Tier) -> Vec<(Algo, Option<usize>)> {
     let ks: Vec<usize> = tier.pick(vec![1, 2, 3], vec![1, 2, 3, 4]);
     // thresholds at and beyond 1 are legal configurations: nothing is "too similar" any more, but the returned routes must still be distinct
-    let sims: Vec<Option<Sim>> = vec![None, Some(Sim::AcceptAll), Some(Sim::EdgeCos(0.3)), Some(Sim::EdgeCos(0.99)), Some(Sim::DistCos(0.5)), Some(Sim::EdgeCos(1.0)), Some(Sim::DistCos(1.5))];
+    let sims: Vec<Option<Sim>> = vec![
+        None,
+        Some(Sim::AcceptAll),
+        Some(Sim::EdgeCos(0.3)),
+        Some(Sim::EdgeCos(0.99)),
+        Some(Sim::DistCos(0.5)),
+        Some(Sim::EdgeCos(1.0)),
+        Some(Sim::DistCos(1.5)),
+    ];
     // criteria that can never fire before the candidates run out (max below k, factor 0) are accepted by the configuration
     // like any other: the answer must still hold between one and k routes
-    let terms: Vec<Option<KTerm>> = tier.pick(if yens { vec![None, Some(KTerm::Factor(2)), Some(KTerm::MaxIter(1))] } else { vec![None, Some(KTerm::Factor(2)), Some(KTerm::MaxIter(1)), Some(KTerm::MaxIter(0))] }, vec![None, Some(KTerm::Exact), Some(KTerm::MaxIter(5)), Some(KTerm::Factor(2)), Some(KTerm::MaxIter(1)), Some(KTerm::Factor(0)), Some(KTerm::MaxIter(0))]);
-    let unders: Vec<Algo> = tier.pick(vec![Algo::Dijkstra], vec![Algo::Dijkstra, Algo::AStar(Some(1.0))]);
+    let terms: Vec<Option<KTerm>> = tier.pick(
+        if yens {
+            vec![None, Some(KTerm::Factor(2)), Some(KTerm::MaxIter(1))]
+        } else {
+            vec![
+                None,
+                Some(KTerm::Factor(2)),
+                Some(KTerm::MaxIter(1)),
+                Some(KTerm::MaxIter(0)),
+            ]
+        },
+        vec![
+            None,
+            Some(KTerm::Exact),
+            Some(KTerm::MaxIter(5)),
+            Some(KTerm::Factor(2)),
+            Some(KTerm::MaxIter(1)),
+            Some(KTerm::Factor(0)),
+            Some(KTerm::MaxIter(0)),
+        ],
+    );
+    let unders: Vec<Algo> = tier.pick(
+        vec![Algo::Dijkstra],
+        vec![Algo::Dijkstra, Algo::AStar(Some(1.0))],
+    );
     let mut out = vec![];
     for k in ks.iter() {
         for (si, sim) in sims.iter().enumerate() {
@@ -47,9 +78,19 @@ fn ksp_algos(yens: bool, tier: Tier) -> Vec<(Algo, Option<usize>)> {
                         continue;
                     }
                     let a = if yens {
-                        Algo::Yens { k: *k, under: Box::new(under.clone()), sim: sim.clone(), term: term.clone() }
+                        Algo::Yens {
+                            k: *k,
+                            under: Box::new(under.clone()),
+                            sim: sim.clone(),
+                            term: term.clone(),
+                        }
                     } else {
-                        Algo::SingleVia { k: *k, under: Box::new(under.clone()), sim: sim.clone(), term: term.clone() }
+                        Algo::SingleVia {
+                            k: *k,
+                            under: Box::new(under.clone()),
+                            sim: sim.clone(),
+                            term: term.clone(),
+                        }
                     };
                     out.push((a, None));
                 }
@@ -59,9 +100,19 @@ fn ksp_algos(yens: bool, tier: Tier) -> Vec<(Algo, Option<usize>)> {
     // k from the query overriding a configured k = 1
     for qk in [2usize, 3] {
         let a = if yens {
-            Algo::Yens { k: 1, under: Box::new(Algo::Dijkstra), sim: Some(Sim::EdgeCos(0.99)), term: None }
+            Algo::Yens {
+                k: 1,
+                under: Box::new(Algo::Dijkstra),
+                sim: Some(Sim::EdgeCos(0.99)),
+                term: None,
+            }
         } else {
-            Algo::SingleVia { k: 1, under: Box::new(Algo::Dijkstra), sim: Some(Sim::EdgeCos(0.99)), term: None }
+            Algo::SingleVia {
+                k: 1,
+                under: Box::new(Algo::Dijkstra),
+                sim: Some(Sim::EdgeCos(0.99)),
+                term: None,
+            }
         };
         out.push((a, Some(qk)));
     }
@@ -71,22 +122,92 @@ fn ksp_algos(yens: bool, tier: Tier) -> Vec<(Algo, Option<usize>)> {
 fn specs(yens: bool, tier: Tier) -> Vec<GenSpec> {
     match (yens, tier) {
         (false, Tier::Quick) => vec![
-            GenSpec { n: 3, max_edges: 5, max_mult: 2, n_len: 2, self_loops: false, mode: LenMode::Alphabet },
-            GenSpec { n: 4, max_edges: 5, max_mult: 2, n_len: 1, self_loops: false, mode: LenMode::PowersOfTwo },
+            GenSpec {
+                n: 3,
+                max_edges: 5,
+                max_mult: 2,
+                n_len: 2,
+                self_loops: false,
+                mode: LenMode::Alphabet,
+            },
+            GenSpec {
+                n: 4,
+                max_edges: 5,
+                max_mult: 2,
+                n_len: 1,
+                self_loops: false,
+                mode: LenMode::PowersOfTwo,
+            },
         ],
         (false, Tier::Thorough) => vec![
-            GenSpec { n: 3, max_edges: 5, max_mult: 2, n_len: 2, self_loops: true, mode: LenMode::Alphabet },
-            GenSpec { n: 4, max_edges: 5, max_mult: 2, n_len: 2, self_loops: false, mode: LenMode::Alphabet },
-            GenSpec { n: 4, max_edges: 6, max_mult: 2, n_len: 1, self_loops: false, mode: LenMode::PowersOfTwo },
-            GenSpec { n: 5, max_edges: 6, max_mult: 1, n_len: 1, self_loops: false, mode: LenMode::PowersOfTwo },
+            GenSpec {
+                n: 3,
+                max_edges: 5,
+                max_mult: 2,
+                n_len: 2,
+                self_loops: true,
+                mode: LenMode::Alphabet,
+            },
+            GenSpec {
+                n: 4,
+                max_edges: 5,
+                max_mult: 2,
+                n_len: 2,
+                self_loops: false,
+                mode: LenMode::Alphabet,
+            },
+            GenSpec {
+                n: 4,
+                max_edges: 6,
+                max_mult: 2,
+                n_len: 1,
+                self_loops: false,
+                mode: LenMode::PowersOfTwo,
+            },
+            GenSpec {
+                n: 5,
+                max_edges: 6,
+                max_mult: 1,
+                n_len: 1,
+                self_loops: false,
+                mode: LenMode::PowersOfTwo,
+            },
         ],
         (true, Tier::Quick) => vec![
-            GenSpec { n: 3, max_edges: 4, max_mult: 2, n_len: 1, self_loops: false, mode: LenMode::PowersOfTwo },
-            GenSpec { n: 4, max_edges: 3, max_mult: 1, n_len: 1, self_loops: false, mode: LenMode::PowersOfTwo },
+            GenSpec {
+                n: 3,
+                max_edges: 4,
+                max_mult: 2,
+                n_len: 1,
+                self_loops: false,
+                mode: LenMode::PowersOfTwo,
+            },
+            GenSpec {
+                n: 4,
+                max_edges: 3,
+                max_mult: 1,
+                n_len: 1,
+                self_loops: false,
+                mode: LenMode::PowersOfTwo,
+            },
         ],
         (true, Tier::Thorough) => vec![
-            GenSpec { n: 3, max_edges: 5, max_mult: 2, n_len: 1, self_loops: false, mode: LenMode::PowersOfTwo },
-            GenSpec { n: 4, max_edges: 5, max_mult: 2, n_len: 1, self_loops: false, mode: LenMode::PowersOfTwo },
+            GenSpec {
+                n: 3,
+                max_edges: 5,
+                max_mult: 2,
+                n_len: 1,
+                self_loops: false,
+                mode: LenMode::PowersOfTwo,
+            },
+            GenSpec {
+                n: 4,
+                max_edges: 5,
+                max_mult: 2,
+                n_len: 1,
+                self_loops: false,
+                mode: LenMode::PowersOfTwo,
+            },
         ],
     }
 }
@@ -95,8 +216,25 @@ fn specs(yens: bool, tier: Tier) -> Vec<GenSpec> {
 /// through the side vertices 3 and 4 (detours that leave the corridor at 0, 1 or 2, shortcuts, ways back into it), under
 /// one (quick) or two (thorough) length tables that keep the corridor cheapest
 fn braided_corridors(tier: Tier) -> Vec<Net> {
-    let menu: [(usize, usize); 10] = [(1, 3), (3, 4), (4, 5), (1, 5), (3, 5), (0, 3), (3, 2), (2, 4), (0, 2), (4, 2)];
-    let tables: Vec<[f64; 10]> = tier.pick(vec![[1.0, 1.0, 1.0, 10.0, 5.0, 3.0, 1.0, 1.0, 2.5, 1.0]], vec![[1.0, 1.0, 1.0, 10.0, 5.0, 3.0, 1.0, 1.0, 2.5, 1.0], [1.0, 1.37, 1.74, 2.11, 2.48, 2.85, 3.22, 3.59, 3.96, 4.33]]);
+    let menu: [(usize, usize); 10] = [
+        (1, 3),
+        (3, 4),
+        (4, 5),
+        (1, 5),
+        (3, 5),
+        (0, 3),
+        (3, 2),
+        (2, 4),
+        (0, 2),
+        (4, 2),
+    ];
+    let tables: Vec<[f64; 10]> = tier.pick(
+        vec![[1.0, 1.0, 1.0, 10.0, 5.0, 3.0, 1.0, 1.0, 2.5, 1.0]],
+        vec![
+            [1.0, 1.0, 1.0, 10.0, 5.0, 3.0, 1.0, 1.0, 2.5, 1.0],
+            [1.0, 1.37, 1.74, 2.11, 2.48, 2.85, 3.22, 3.59, 3.96, 4.33],
+        ],
+    );
     let mut out = vec![];
     for t in tables.iter() {
         for mask in 0u32..1024 {
@@ -109,7 +247,11 @@ fn braided_corridors(tier: Tier) -> Vec<Net> {
                     edges.push((*a, *b, t[i]));
                 }
             }
-            out.push(Net { n: 6, edges, xy: None });
+            out.push(Net {
+                n: 6,
+                edges,
+                xy: None,
+            });
         }
     }
     out
@@ -145,7 +287,11 @@ fn trunk_nets() -> Vec<Net> {
                             at = to;
                         }
                     }
-                    out.push(Net { n: dest + 1, edges, xy: None });
+                    out.push(Net {
+                        n: dest + 1,
+                        edges,
+                        xy: None,
+                    });
                 }
             }
         }
@@ -164,7 +310,11 @@ fn fork_nets() -> Vec<Net> {
                 for extra_tail in [false, true] {
                     // vertices: 0 origin, 1 on A, 2 on B, 3 on C, (4 on C when its private part has three edges), destination last
                     let d = if extra_tail { 5 } else { 4 };
-                    let (la, lb, lc) = if c_before_b { (1.0, 1.6, 1.2) } else { (1.0, 1.1, 1.5) };
+                    let (la, lb, lc) = if c_before_b {
+                        (1.0, 1.6, 1.2)
+                    } else {
+                        (1.0, 1.1, 1.5)
+                    };
                     let mut edges = vec![(0usize, 1usize, la), (1, d, la), (0, 2, lb), (2, d, lb)];
                     let mid = if shared_with_a { 1 } else { 2 };
                     if share_first {
@@ -186,7 +336,11 @@ fn fork_nets() -> Vec<Net> {
                             edges.push((3, mid, lc));
                         }
                     }
-                    out.push(Net { n: d + 1, edges, xy: None });
+                    out.push(Net {
+                        n: d + 1,
+                        edges,
+                        xy: None,
+                    });
                 }
             }
         }
@@ -209,21 +363,79 @@ impl Space {
     fn new(yens: bool, tier: Tier) -> Space {
         let (extra_nets, extra_algos) = if !yens && tier == Tier::Quick {
             (
-                nets(&[GenSpec { n: 5, max_edges: 5, max_mult: 1, n_len: 1, self_loops: false, mode: LenMode::PowersOfTwo }]).into_iter().filter(|n| n.m() >= 4).collect(),
+                nets(&[GenSpec {
+                    n: 5,
+                    max_edges: 5,
+                    max_mult: 1,
+                    n_len: 1,
+                    self_loops: false,
+                    mode: LenMode::PowersOfTwo,
+                }])
+                .into_iter()
+                .filter(|n| n.m() >= 4)
+                .collect(),
                 vec![
-                    (Algo::SingleVia { k: 3, under: Box::new(Algo::Dijkstra), sim: Some(Sim::AcceptAll), term: None }, None),
-                    (Algo::SingleVia { k: 3, under: Box::new(Algo::AStar(Some(1.0))), sim: Some(Sim::EdgeCos(0.99)), term: None }, None),
+                    (
+                        Algo::SingleVia {
+                            k: 3,
+                            under: Box::new(Algo::Dijkstra),
+                            sim: Some(Sim::AcceptAll),
+                            term: None,
+                        },
+                        None,
+                    ),
+                    (
+                        Algo::SingleVia {
+                            k: 3,
+                            under: Box::new(Algo::AStar(Some(1.0))),
+                            sim: Some(Sim::EdgeCos(0.99)),
+                            term: None,
+                        },
+                        None,
+                    ),
                 ],
             )
         } else if yens {
             // Yen's second round: a three-edge least-cost route and k >= 3 make the algorithm branch off a route accepted in
             // the first round (see braided_corridors)
             // (k = 4: the second round of a three-edge least-cost route yields routes three and four)
-            let mut algos = vec![(Algo::Yens { k: 4, under: Box::new(Algo::Dijkstra), sim: Some(Sim::AcceptAll), term: None }, None)];
+            let mut algos = vec![(
+                Algo::Yens {
+                    k: 4,
+                    under: Box::new(Algo::Dijkstra),
+                    sim: Some(Sim::AcceptAll),
+                    term: None,
+                },
+                None,
+            )];
             if tier == Tier::Thorough {
-                algos.push((Algo::Yens { k: 3, under: Box::new(Algo::Dijkstra), sim: Some(Sim::AcceptAll), term: None }, None));
-                algos.push((Algo::Yens { k: 4, under: Box::new(Algo::Dijkstra), sim: None, term: None }, None));
-                algos.push((Algo::Yens { k: 1, under: Box::new(Algo::AStar(Some(1.0))), sim: Some(Sim::EdgeCos(0.99)), term: None }, Some(3)));
+                algos.push((
+                    Algo::Yens {
+                        k: 3,
+                        under: Box::new(Algo::Dijkstra),
+                        sim: Some(Sim::AcceptAll),
+                        term: None,
+                    },
+                    None,
+                ));
+                algos.push((
+                    Algo::Yens {
+                        k: 4,
+                        under: Box::new(Algo::Dijkstra),
+                        sim: None,
+                        term: None,
+                    },
+                    None,
+                ));
+                algos.push((
+                    Algo::Yens {
+                        k: 1,
+                        under: Box::new(Algo::AStar(Some(1.0))),
+                        sim: Some(Sim::EdgeCos(0.99)),
+                        term: None,
+                    },
+                    Some(3),
+                ));
             }
             (braided_corridors(tier), algos)
         } else {
@@ -236,33 +448,74 @@ impl Space {
             for k in [2usize, 3] {
                 for under in [Algo::Dijkstra, Algo::AStar(Some(1.0))] {
                     for sim in [Sim::DistCos(0.7), Sim::DistCos(0.5), Sim::EdgeCos(0.7)] {
-                        a.push((Algo::SingleVia { k, under: Box::new(under.clone()), sim: Some(sim), term: None }, None));
+                        a.push((
+                            Algo::SingleVia {
+                                k,
+                                under: Box::new(under.clone()),
+                                sim: Some(sim),
+                                term: None,
+                            },
+                            None,
+                        ));
                     }
                 }
             }
             // the fork family wants low thresholds (one shared edge of two or three) and room for a third and fourth route
             for k in [3usize, 4] {
                 for sim in [Sim::EdgeCos(0.3), Sim::EdgeCos(0.45), Sim::DistCos(0.3)] {
-                    a.push((Algo::SingleVia { k, under: Box::new(Algo::Dijkstra), sim: Some(sim), term: None }, None));
+                    a.push((
+                        Algo::SingleVia {
+                            k,
+                            under: Box::new(Algo::Dijkstra),
+                            sim: Some(sim),
+                            term: None,
+                        },
+                        None,
+                    ));
                 }
             }
             let mut nets = trunk_nets();
             nets.extend(fork_nets());
             // connectors of length zero: a route made of them alone has no length to weigh its edges by (the distance-weighted
             // cosine has nothing to divide by); the query is answerable all the same
-            nets.push(Net { n: 3, edges: vec![(0, 2, 0.0), (0, 1, 1.0), (1, 2, 1.0)], xy: None });
-            nets.push(Net { n: 4, edges: vec![(0, 1, 0.0), (1, 3, 0.0), (0, 2, 1.0), (2, 3, 1.0)], xy: None });
-            nets.push(Net { n: 4, edges: vec![(0, 1, 0.0), (1, 3, 1.0), (0, 2, 1.0), (2, 3, 1.5)], xy: None });
-            nets.push(Net { n: 4, edges: vec![(0, 1, 1.0), (1, 3, 1.0), (0, 2, 0.0), (2, 3, 0.0)], xy: None });
+            nets.push(Net {
+                n: 3,
+                edges: vec![(0, 2, 0.0), (0, 1, 1.0), (1, 2, 1.0)],
+                xy: None,
+            });
+            nets.push(Net {
+                n: 4,
+                edges: vec![(0, 1, 0.0), (1, 3, 0.0), (0, 2, 1.0), (2, 3, 1.0)],
+                xy: None,
+            });
+            nets.push(Net {
+                n: 4,
+                edges: vec![(0, 1, 0.0), (1, 3, 1.0), (0, 2, 1.0), (2, 3, 1.5)],
+                xy: None,
+            });
+            nets.push(Net {
+                n: 4,
+                edges: vec![(0, 1, 1.0), (1, 3, 1.0), (0, 2, 0.0), (2, 3, 0.0)],
+                xy: None,
+            });
             (nets, a)
         };
-        Space { nets: nets(&specs(yens, tier)), algos: ksp_algos(yens, tier), extra_nets, extra_algos, trunk_nets, trunk_algos }
+        Space {
+            nets: nets(&specs(yens, tier)),
+            algos: ksp_algos(yens, tier),
+            extra_nets,
+            extra_algos,
+            trunk_nets,
+            trunk_algos,
+        }
     }
     fn main_len(&self) -> u64 {
         (self.nets.len() * self.algos.len()) as u64
     }
     fn len(&self) -> u64 {
-        self.main_len() + (self.extra_nets.len() * self.extra_algos.len()) as u64 + (self.trunk_nets.len() * self.trunk_algos.len()) as u64
+        self.main_len()
+            + (self.extra_nets.len() * self.extra_algos.len()) as u64
+            + (self.trunk_nets.len() * self.trunk_algos.len()) as u64
     }
     fn case(&self, i: u64) -> Case {
         let extra_len = (self.extra_nets.len() * self.extra_algos.len()) as u64;
@@ -270,19 +523,34 @@ impl Space {
             let j = (i - self.main_len() - extra_len) as usize;
             let net = self.trunk_nets[j / self.trunk_algos.len()].clone();
             let a = &self.trunk_algos[j % self.trunk_algos.len()];
-            return Case { net, algo: a.0.clone(), query_k: a.1, speed_world: false };
+            return Case {
+                net,
+                algo: a.0.clone(),
+                query_k: a.1,
+                speed_world: false,
+            };
         }
         if i >= self.main_len() {
             let j = (i - self.main_len()) as usize;
             let net = self.extra_nets[j / self.extra_algos.len()].clone();
             let a = &self.extra_algos[j % self.extra_algos.len()];
-            return Case { net, algo: a.0.clone(), query_k: a.1, speed_world: false };
+            return Case {
+                net,
+                algo: a.0.clone(),
+                query_k: a.1,
+                speed_world: false,
+            };
         }
         let ni = i as usize / self.algos.len();
         let ai = i as usize % self.algos.len();
         let net = self.nets[ni].clone();
         let speed_world = net.hash_idx() % 5 == 0;
-        Case { net, algo: self.algos[ai].0.clone(), query_k: self.algos[ai].1, speed_world }
+        Case {
+            net,
+            algo: self.algos[ai].0.clone(),
+            query_k: self.algos[ai].1,
+            speed_world,
+        }
     }
 }
 
@@ -329,7 +597,17 @@ pub fn component(c: &Case) -> String {
         Some(Sim::DistCos(_)) => "distance_cosine",
     };
     let k = k_of(c);
-    format!("{}.k{}.{}.{}", c.algo.component(), if k == 1 { "1".to_string() } else { "2plus".to_string() }, sim, sp)
+    format!(
+        "{}.k{}.{}.{}",
+        c.algo.component(),
+        if k == 1 {
+            "1".to_string()
+        } else {
+            "2plus".to_string()
+        },
+        sim,
+        sp
+    )
 }
 
 fn ref_similarity(net: &Net, a: &[usize], b: &[usize], weighted: bool) -> f64 {
@@ -340,8 +618,18 @@ fn ref_similarity(net: &Net, a: &[usize], b: &[usize], weighted: bool) -> f64 {
             num += wt(*e) * wt(*e);
         }
     }
-    let da: f64 = a.iter().collect::<std::collections::BTreeSet<_>>().iter().map(|e| wt(**e) * wt(**e)).sum();
-    let db: f64 = b.iter().collect::<std::collections::BTreeSet<_>>().iter().map(|e| wt(**e) * wt(**e)).sum();
+    let da: f64 = a
+        .iter()
+        .collect::<std::collections::BTreeSet<_>>()
+        .iter()
+        .map(|e| wt(**e) * wt(**e))
+        .sum();
+    let db: f64 = b
+        .iter()
+        .collect::<std::collections::BTreeSet<_>>()
+        .iter()
+        .map(|e| wt(**e) * wt(**e))
+        .sum();
     num / (da.sqrt() * db.sqrt())
 }
 
@@ -351,11 +639,21 @@ pub fn check_case(c: &Case, st: &mut Stats) -> Option<usize> {
     st.traces += 1;
     let net = &c.net;
     let n = net.n;
-    let w = if c.speed_world && net.m() > 0 { crate::props::c01::speed_turn_world(net) } else { World::distance(net.clone()) };
+    let w = if c.speed_world && net.m() > 0 {
+        crate::props::c01::speed_turn_world(net)
+    } else {
+        World::distance(net.clone())
+    };
     let si = match w.si() {
         Ok(si) => si,
         Err(e) => {
-            st.violation("harness", "si_build", 0, || e.clone(), || json!({"case": c}));
+            st.violation(
+                "harness",
+                "si_build",
+                0,
+                || e.clone(),
+                || json!({"case": c}),
+            );
             return None;
         }
     };
@@ -363,7 +661,10 @@ pub fn check_case(c: &Case, st: &mut Stats) -> Option<usize> {
         Some(k) => json!({"k": k}),
         None => json!({}),
     };
-    let orient = Orient::Vertex { o: 0, d: Some(n - 1) };
+    let orient = Orient::Vertex {
+        o: 0,
+        d: Some(n - 1),
+    };
     let out = run_search(&si, &c.algo, &orient, false, &query);
     st.outcome(out.kind());
     let comp = component(c);
@@ -378,20 +679,33 @@ pub fn check_case(c: &Case, st: &mut Stats) -> Option<usize> {
         }
         return None;
     }
-    st.nontrivial += (crate::refmodel::graph::simple_paths(net, 0, n - 1, &|_| true).len() >= 2) as u64;
+    st.nontrivial +=
+        (crate::refmodel::graph::simple_paths(net, 0, n - 1, &|_| true).len() >= 2) as u64;
     match &out {
         Outcome::Panic(p) => {
             st.violation(&comp, "no_panic", size, || p.clone(), case);
             None
         }
         Outcome::NoPath(e) | Outcome::Terminated(e) | Outcome::OtherErr(e) => {
-            st.violation(&comp, "answerable_query_is_not_an_error", size, || e.clone(), case);
+            st.violation(
+                &comp,
+                "answerable_query_is_not_an_error",
+                size,
+                || e.clone(),
+                case,
+            );
             None
         }
         Outcome::Ok { routes, .. } => {
             // a: between one and k routes
             if routes.is_empty() || routes.len() > k {
-                st.violation(&comp, "between_one_and_k_routes", size, || format!("k = {} but {} routes: {}", k, routes.len(), out.text()), case);
+                st.violation(
+                    &comp,
+                    "between_one_and_k_routes",
+                    size,
+                    || format!("k = {} but {} routes: {}", k, routes.len(), out.text()),
+                    case,
+                );
             } else {
                 st.pass("between_one_and_k_routes");
             }
@@ -408,7 +722,20 @@ pub fn check_case(c: &Case, st: &mut Stats) -> Option<usize> {
                 if close(got, bf[n - 1], w.tol()) {
                     st.pass("first_route_is_least_cost");
                 } else {
-                    st.violation(&comp, "first_route_is_least_cost", size, || format!("first route {:?} costs {} but least cost is {}", route_ids(&routes[0]), got, bf[n - 1]), case);
+                    st.violation(
+                        &comp,
+                        "first_route_is_least_cost",
+                        size,
+                        || {
+                            format!(
+                                "first route {:?} costs {} but least cost is {}",
+                                route_ids(&routes[0]),
+                                got,
+                                bf[n - 1]
+                            )
+                        },
+                        case,
+                    );
                 }
             }
             // b': in every world, the first route is no dearer than the route the underlying search alone returns for the
@@ -418,7 +745,9 @@ pub fn check_case(c: &Case, st: &mut Stats) -> Option<usize> {
                     Algo::SingleVia { under, .. } | Algo::Yens { under, .. } => (**under).clone(),
                     other => other.clone(),
                 };
-                if let Outcome::Ok { routes: plain, .. } = run_search(&si, &under, &orient, false, &json!({})) {
+                if let Outcome::Ok { routes: plain, .. } =
+                    run_search(&si, &under, &orient, false, &json!({}))
+                {
                     if let Some(p) = plain.first() {
                         let (got, alone) = (route_cost(&routes[0]), route_cost(p));
                         if got <= alone || close(got, alone, w.tol()) {
@@ -433,7 +762,13 @@ pub fn check_case(c: &Case, st: &mut Stats) -> Option<usize> {
             for (ri, r) in routes.iter().enumerate() {
                 let ids = route_ids(r);
                 let mut bad = route_structure(net, &ids, &orient, false);
-                let verts: Vec<usize> = std::iter::once(0).chain(ids.iter().filter(|e| **e < net.m()).map(|e| net.edges[*e].1)).collect();
+                let verts: Vec<usize> = std::iter::once(0)
+                    .chain(
+                        ids.iter()
+                            .filter(|e| **e < net.m())
+                            .map(|e| net.edges[*e].1),
+                    )
+                    .collect();
                 let mut seen = std::collections::HashSet::new();
                 if !verts.iter().all(|v| seen.insert(*v)) {
                     bad.push(("route_is_loop_free", format!("vertices {:?}", verts)));
@@ -445,7 +780,13 @@ pub fn check_case(c: &Case, st: &mut Stats) -> Option<usize> {
                     st.pass("every_route_valid_loop_free_accumulated");
                 }
                 for (cl, d) in bad {
-                    st.violation(&comp, cl, size, || format!("route #{} {:?}: {}", ri, ids, d), case);
+                    st.violation(
+                        &comp,
+                        cl,
+                        size,
+                        || format!("route #{} {:?}: {}", ri, ids, d),
+                        case,
+                    );
                 }
             }
             // d: pairwise distinct; e: pairwise dissimilar under the configured threshold
@@ -456,7 +797,13 @@ pub fn check_case(c: &Case, st: &mut Stats) -> Option<usize> {
                 for j in i + 1..ids.len() {
                     if ids[i] == ids[j] {
                         distinct = false;
-                        st.violation(&comp, "no_two_routes_share_an_edge_sequence", size, || format!("routes #{} and #{} are both {:?}", i, j, ids[i]), case);
+                        st.violation(
+                            &comp,
+                            "no_two_routes_share_an_edge_sequence",
+                            size,
+                            || format!("routes #{} and #{} are both {:?}", i, j, ids[i]),
+                            case,
+                        );
                     }
                     let (thr, weighted) = match sim_of(c) {
                         Some(Sim::EdgeCos(t)) => (Some(t), false),
@@ -469,7 +816,18 @@ pub fn check_case(c: &Case, st: &mut Stats) -> Option<usize> {
                             st.skipped_boundary += 1;
                         } else if s >= t {
                             dissimilar = false;
-                            st.violation(&comp, "no_two_routes_more_similar_than_threshold", size, || format!("routes {:?} and {:?} have similarity {} >= {}", ids[i], ids[j], s, t), case);
+                            st.violation(
+                                &comp,
+                                "no_two_routes_more_similar_than_threshold",
+                                size,
+                                || {
+                                    format!(
+                                        "routes {:?} and {:?} have similarity {} >= {}",
+                                        ids[i], ids[j], s, t
+                                    )
+                                },
+                                case,
+                            );
                         }
                     }
                 }
@@ -487,21 +845,57 @@ pub fn check_case(c: &Case, st: &mut Stats) -> Option<usize> {
 
 /// clause f for one net / k: accept-all returns at least as many routes as any threshold (single-via)
 fn check_accept_all(net: &Net, k: usize, st: &mut Stats) {
-    let mk = |sim: Option<Sim>| Case { net: net.clone(), algo: Algo::SingleVia { k, under: Box::new(Algo::Dijkstra), sim, term: None }, query_k: None, speed_world: false };
+    let mk = |sim: Option<Sim>| Case {
+        net: net.clone(),
+        algo: Algo::SingleVia {
+            k,
+            under: Box::new(Algo::Dijkstra),
+            sim,
+            term: None,
+        },
+        query_k: None,
+        speed_world: false,
+    };
     let mut scratch = Stats::new();
     let base_default = check_case(&mk(None), &mut scratch);
     let base_explicit = check_case(&mk(Some(Sim::AcceptAll)), &mut scratch);
-    for sim in [Sim::EdgeCos(0.3), Sim::EdgeCos(0.99), Sim::DistCos(0.5), Sim::DistCos(0.99), Sim::EdgeCos(1.0), Sim::EdgeCos(1.5), Sim::DistCos(1.0)] {
+    for sim in [
+        Sim::EdgeCos(0.3),
+        Sim::EdgeCos(0.99),
+        Sim::DistCos(0.5),
+        Sim::DistCos(0.99),
+        Sim::EdgeCos(1.0),
+        Sim::EdgeCos(1.5),
+        Sim::DistCos(1.0),
+    ] {
         st.evaluations += 1;
         st.transitions += 1;
         let with = check_case(&mk(Some(sim.clone())), &mut scratch);
-        for (name, base) in [("default_similarity", base_default), ("accept_all", base_explicit)] {
+        for (name, base) in [
+            ("default_similarity", base_default),
+            ("accept_all", base_explicit),
+        ] {
             if let (Some(a), Some(b)) = (base, with) {
-                let comp = format!("ksp_single_via.k{}.{}", if k == 1 { "1" } else { "2plus" }, name);
+                let comp = format!(
+                    "ksp_single_via.k{}.{}",
+                    if k == 1 { "1" } else { "2plus" },
+                    name
+                );
                 if a >= b {
                     st.pass("accept_all_returns_at_least_as_many_routes");
                 } else {
-                    st.violation(&comp, "accept_all_returns_at_least_as_many_routes", net.size(), || format!("k = {}: {} returns {} routes but {:?} returns {}", k, name, a, sim, b), || json!({"net": net, "k": k, "similarity": sim}));
+                    st.violation(
+                        &comp,
+                        "accept_all_returns_at_least_as_many_routes",
+                        net.size(),
+                        || {
+                            format!(
+                                "k = {}: {} returns {} routes but {:?} returns {}",
+                                k, name, a, sim, b
+                            )
+                        },
+                        || json!({"net": net, "k": k, "similarity": sim}),
+                    );
                 }
             }
         }
@@ -517,13 +911,26 @@ fn check_edge_oriented(net: &Net, st: &mut Stats) {
         return;
     }
     let idx = net.hash_idx() as usize;
-    let w = if idx % 2 == 0 { crate::props::c01::speed_turn_world(net) } else { World::distance(net.clone()) };
+    let w = if idx % 2 == 0 {
+        crate::props::c01::speed_turn_world(net)
+    } else {
+        World::distance(net.clone())
+    };
     let si = match w.si() {
         Ok(si) => si,
         Err(_) => return,
     };
     let sims = [Some(Sim::AcceptAll), Some(Sim::EdgeCos(0.99)), None];
-    let algo = Algo::SingleVia { k: 3, under: Box::new(if idx % 3 == 0 { Algo::AStar(Some(1.0)) } else { Algo::Dijkstra }), sim: sims[idx % 3].clone(), term: None };
+    let algo = Algo::SingleVia {
+        k: 3,
+        under: Box::new(if idx % 3 == 0 {
+            Algo::AStar(Some(1.0))
+        } else {
+            Algo::Dijkstra
+        }),
+        sim: sims[idx % 3].clone(),
+        term: None,
+    };
     for o in 0..m {
         for d in 0..m {
             if o == d || net.edges[o].1 == net.edges[d].0 {
@@ -543,10 +950,22 @@ fn check_edge_oriented(net: &Net, st: &mut Stats) {
             let case = || json!({"edge_oriented": true, "net": net, "origin_edge": o, "destination_edge": d, "algo": algo, "speed_world": idx % 2 == 0});
             match &out {
                 Outcome::Panic(p) => st.violation(&comp, "no_panic", size, || p.clone(), case),
-                Outcome::NoPath(e) | Outcome::Terminated(e) | Outcome::OtherErr(e) => st.violation(&comp, "answerable_query_is_not_an_error", size, || e.clone(), case),
+                Outcome::NoPath(e) | Outcome::Terminated(e) | Outcome::OtherErr(e) => st.violation(
+                    &comp,
+                    "answerable_query_is_not_an_error",
+                    size,
+                    || e.clone(),
+                    case,
+                ),
                 Outcome::Ok { routes, .. } => {
                     if routes.is_empty() || routes.len() > 3 {
-                        st.violation(&comp, "between_one_and_k_routes", size, || format!("k = 3 but {} routes", routes.len()), case);
+                        st.violation(
+                            &comp,
+                            "between_one_and_k_routes",
+                            size,
+                            || format!("k = 3 but {} routes", routes.len()),
+                            case,
+                        );
                     } else {
                         st.pass("between_one_and_k_routes");
                     }
@@ -557,7 +976,13 @@ fn check_edge_oriented(net: &Net, st: &mut Stats) {
                     for i in 0..ids.len() {
                         for j in i + 1..ids.len() {
                             if ids[i] == ids[j] {
-                                st.violation(&comp, "no_two_routes_share_an_edge_sequence", size, || format!("routes #{} and #{} are both {:?}", i, j, ids[i]), case);
+                                st.violation(
+                                    &comp,
+                                    "no_two_routes_share_an_edge_sequence",
+                                    size,
+                                    || format!("routes #{} and #{} are both {:?}", i, j, ids[i]),
+                                    case,
+                                );
                             }
                         }
                     }
@@ -570,7 +995,13 @@ fn check_edge_oriented(net: &Net, st: &mut Stats) {
                             st.pass("every_route_valid_loop_free_accumulated");
                         }
                         for (cl, dtl) in bad {
-                            st.violation(&comp, cl, size, || format!("route #{} {:?}: {}", ri, ids[ri], dtl), case);
+                            st.violation(
+                                &comp,
+                                cl,
+                                size,
+                                || format!("route #{} {:?}: {}", ri, ids[ri], dtl),
+                                case,
+                            );
                         }
                     }
                 }
@@ -581,7 +1012,11 @@ fn check_edge_oriented(net: &Net, st: &mut Stats) {
 
 pub fn worker(args: &[String]) -> i32 {
     // args: <tier> <single_via|yens|accept_all>
-    let tier = if args.first().map(|s| s.as_str()) == Some("thorough") { Tier::Thorough } else { Tier::Quick };
+    let tier = if args.first().map(|s| s.as_str()) == Some("thorough") {
+        Tier::Thorough
+    } else {
+        Tier::Quick
+    };
     let mode = args.get(1).cloned().unwrap_or_default();
     match mode.as_str() {
         "accept_all" => {
@@ -617,10 +1052,23 @@ pub fn run(tier: Tier) -> i32 {
     let mut total = Stats::new();
     let mut bounds = serde_json::Map::new();
     let budget = Duration::from_secs(tier.pick(45, 1200));
-    for (mode, yens, block) in [("single_via", false, 256u64), ("yens", true, 4u64), ("accept_all", false, 64u64)] {
-        let n = if mode == "accept_all" { nets(&specs(false, tier)).len() as u64 * 3 } else { Space::new(yens, tier).len() };
+    for (mode, yens, block) in [
+        ("single_via", false, 256u64),
+        ("yens", true, 4u64),
+        ("accept_all", false, 64u64),
+    ] {
+        let n = if mode == "accept_all" {
+            nets(&specs(false, tier)).len() as u64 * 3
+        } else {
+            Space::new(yens, tier).len()
+        };
         let cfg = SandboxCfg {
-            worker_args: vec!["--worker".into(), "C13".into(), tier.as_str().into(), mode.into()],
+            worker_args: vec![
+                "--worker".into(),
+                "C13".into(),
+                tier.as_str().into(),
+                mode.into(),
+            ],
             n_workers: 16,
             case_timeout: Duration::from_millis(if yens { 100 } else { 2000 }),
             block,
@@ -638,7 +1086,13 @@ pub fn run(tier: Tier) -> i32 {
         bounds.insert(format!("{}_hung_or_died", mode), json!(fates.len()));
         if mode == "accept_all" {
             for (i, f) in fates {
-                total.violation("ksp_single_via.accept_all_comparison", "terminates", i, || format!("{:?}", f), || json!({"index": i}));
+                total.violation(
+                    "ksp_single_via.accept_all_comparison",
+                    "terminates",
+                    i,
+                    || format!("{:?}", f),
+                    || json!({"index": i}),
+                );
             }
             continue;
         }
@@ -659,8 +1113,14 @@ pub fn run(tier: Tier) -> i32 {
     let desc_y: Vec<String> = specs(true, tier).iter().map(|s| s.describe()).collect();
     bounds.insert("single_via_graph_families".into(), json!(desc_sv));
     bounds.insert("yens_graph_families".into(), json!(desc_y));
-    bounds.insert("algorithm_configurations_single_via".into(), json!(ksp_algos(false, tier).len()));
-    bounds.insert("algorithm_configurations_yens".into(), json!(ksp_algos(true, tier).len()));
+    bounds.insert(
+        "algorithm_configurations_single_via".into(),
+        json!(ksp_algos(false, tier).len()),
+    );
+    bounds.insert(
+        "algorithm_configurations_yens".into(),
+        json!(ksp_algos(true, tier).len()),
+    );
     finish(
         &info,
         total,
@@ -676,7 +1136,15 @@ pub fn run(tier: Tier) -> i32 {
 }
 
 pub fn replay(case: &Value) -> i32 {
-    let case = if case.get("case").and_then(|c| c.get("edge_oriented")).is_some() { &case["case"] } else { case };
+    let case = if case
+        .get("case")
+        .and_then(|c| c.get("edge_oriented"))
+        .is_some()
+    {
+        &case["case"]
+    } else {
+        case
+    };
     if case.get("edge_oriented").is_some() {
         // an edge-oriented case: every pair of edges of its network is run again, the recorded pair among them
         let net: Net = match serde_json::from_value(case["net"].clone()) {
@@ -691,7 +1159,11 @@ pub fn replay(case: &Value) -> i32 {
         for (k, g) in st.violations.iter() {
             println!("REPLAY-VIOLATION {} {}", k, g.detail);
         }
-        println!("replay: {} violated clauses over {} edge pairs", st.violations.len(), st.evaluations);
+        println!(
+            "replay: {} violated clauses over {} edge pairs",
+            st.violations.len(),
+            st.evaluations
+        );
         return if st.violations.is_empty() { 0 } else { 1 };
     }
     let c: Case = match serde_json::from_value(case["case"].clone()) {
@@ -715,8 +1187,16 @@ pub fn replay(case: &Value) -> i32 {
             for (k, g) in st.violations.iter() {
                 println!("REPLAY-VIOLATION {} {}", k, g.detail);
             }
-            println!("replay: {} violated clauses; outcomes {:?}", st.violations.len(), st.outcomes);
-            if st.violations.is_empty() { 0 } else { 1 }
+            println!(
+                "replay: {} violated clauses; outcomes {:?}",
+                st.violations.len(),
+                st.outcomes
+            );
+            if st.violations.is_empty() {
+                0
+            } else {
+                1
+            }
         }
         Err(_) => {
             println!("REPLAY-VIOLATION terminates: no answer after 5 s");
